@@ -6,15 +6,15 @@
 //   std::unique_ptr<State> fresh();          // initial product state
 //   std::unique_ptr<State> clone(const State&);   // may return nullptr: then states are rebuilt by history replay
 //   std::vector<Op> enabled(const State&);   // operation alphabet in this state
-//   bool apply(State&, const Op&, bool check, const std::string& hist);
+//   bool apply(State&, const Op&, bool check, const Hist& hist);   // (or const std::string& hist: converted on call)
 //                                            // perform op on impl and model; with check=true compare and report;
 //                                            // returns false if the edge violated the oracle (successor not expanded)
-//   std::string key(const State&);           // FULL state (impl private state + model state): dedup only
+//   std::string key(const State&);           // FULL state (impl private state + model state) or a 128-bit hash of it
 //   std::string show(const Op&);
 //
-// Every state keeps the shortest history that reaches it. When clone() is unavailable the history is replayed on a
-// fresh object and the key is recomputed; a key that differs from the one recorded at discovery is a hard error
-// ("replay diverged"): that is how un-owned nondeterminism would show.
+// Every state keeps a parent link, i.e. the shortest history that reaches it. When clone() is unavailable the
+// history is replayed on a fresh object and the key is recomputed; a key that differs from the one recorded at
+// discovery is a hard error ("replay diverged"): that is how un-owned nondeterminism would show.
 #pragma once
 #include "mc.hpp"
 #include <deque>
@@ -26,61 +26,87 @@ namespace mc {
 
 struct BfsResult {
 	std::size_t states = 0, transitions = 0, maxDepth = 0;
-	bool fixpoint = true;
+	bool fixpoint = true;   // no unexpanded state remained
+	bool capped = false;    // a state cap (or an undeclared depth cap) cut the search short
+};
+
+// lazily rendered operation history (rendering is O(depth); only done for reports)
+struct Hist {
+	std::function<std::string(std::size_t)> render;   // argument: maximum number of trailing operations (0 = all)
+	std::string str(std::size_t lastN = 0) const { return render(lastN); }
+	operator std::string() const { return render(0); }
 };
 
 template <class H>
-BfsResult bfs(H& h, Ctx& ctx, std::size_t maxStates, std::size_t maxDepth, const std::string& label)
+BfsResult bfs(H& h, Ctx& ctx, std::size_t maxStates, std::size_t maxDepth, const std::string& label, bool depthIsDeclaredBound = false)
 {
 	using Op = typename H::Op;
 	using State = typename H::State;
-	struct Node { std::vector<Op> hist; std::string key; std::unique_ptr<State> st; };
+	struct Rec { int64_t parent; Op op; uint32_t depth; std::string key; };
+	std::vector<Rec> recs;
+	struct QItem { int64_t id; std::unique_ptr<State> st; };
 	BfsResult res;
 	std::unordered_set<std::string> seen;
-	std::deque<Node> queue;
+	std::deque<QItem> queue;
 
-	auto histStr = [&](const std::vector<Op>& hist) {
+	auto opsOf = [&](int64_t id) {
+		std::vector<Op> ops;
+		for (int64_t i = id; i > 0; i = recs[std::size_t(i)].parent) ops.push_back(recs[std::size_t(i)].op);
+		std::reverse(ops.begin(), ops.end());
+		return ops;
+	};
+	auto render = [&](int64_t id, const Op* last, std::size_t lastN) {
+		std::vector<std::string> parts;
+		if (last) parts.push_back(h.show(*last));
+		std::size_t depth = recs[std::size_t(id)].depth + (last ? 1 : 0);
+		for (int64_t i = id; i > 0 && (lastN == 0 || parts.size() < lastN); i = recs[std::size_t(i)].parent) parts.push_back(h.show(recs[std::size_t(i)].op));
 		std::string s = label + " :";
-		for (auto& o : hist) { s += " "; s += h.show(o); }
+		if (parts.size() < depth) s += " ...(" + std::to_string(depth - parts.size()) + " earlier operations)";
+		for (std::size_t k = parts.size(); k-- > 0;) { s += " "; s += parts[k]; }
 		return s;
 	};
-	auto rebuild = [&](const Node& n) -> std::unique_ptr<State> {
-		if (n.st) { auto c = h.clone(*n.st); if (c) return c; }
+	auto rebuild = [&](const QItem& q) -> std::unique_ptr<State> {
+		if (q.st) { auto c = h.clone(*q.st); if (c) return c; }
 		auto s = h.fresh();
-		for (auto& o : n.hist) h.apply(*s, o, false, "");
-		if (h.key(*s) != n.key) {
-			ctx.violation("harness/replay-diverged", histStr(n.hist), "replaying the recorded history on a fresh object did not reproduce the recorded state key");
+		Hist none{ [](std::size_t) { return std::string(); } };
+		for (auto& o : opsOf(q.id)) h.apply(*s, o, false, none);
+		if (h.key(*s) != recs[std::size_t(q.id)].key) {
+			ctx.violation("harness/replay-diverged", render(q.id, nullptr, 0), "replaying the recorded history on a fresh object did not reproduce the recorded state key");
 		}
 		return s;
 	};
 
 	{
-		Node n; n.st = h.fresh(); n.key = h.key(*n.st);
-		seen.insert(n.key);
-		if (!h.clone(*n.st)) n.st.reset();
-		queue.push_back(std::move(n));
+		QItem q; q.id = 0; q.st = h.fresh();
+		Rec r{ -1, Op{}, 0, h.key(*q.st) };
+		seen.insert(r.key);
+		recs.push_back(std::move(r));
+		if (!h.clone(*q.st)) q.st.reset();
+		queue.push_back(std::move(q));
 		res.states = 1;
 	}
 	while (!queue.empty()) {
-		Node n = std::move(queue.front());
+		QItem q = std::move(queue.front());
 		queue.pop_front();
-		if (n.hist.size() > res.maxDepth) res.maxDepth = n.hist.size();
-		if (n.hist.size() >= maxDepth) { res.fixpoint = false; continue; }
+		uint32_t depth = recs[std::size_t(q.id)].depth;
+		if (depth > res.maxDepth) res.maxDepth = depth;
+		if (depth >= maxDepth) { res.fixpoint = false; if (!depthIsDeclaredBound) res.capped = true; continue; }
 		std::vector<Op> ops;
-		{ auto base = rebuild(n); ops = h.enabled(*base); }
+		{ auto base = rebuild(q); ops = h.enabled(*base); }
 		for (auto& op : ops) {
-			auto s = rebuild(n);
-			std::vector<Op> hist2 = n.hist; hist2.push_back(op);
-			std::string hs = histStr(hist2);
-			ctx.sub(hs.size() > 230 ? hs.substr(hs.size() - 230) : hs);
-			bool ok = h.apply(*s, op, true, hs);
+			auto s = rebuild(q);
+			int64_t qid = q.id;
+			ctx.sub(render(qid, &op, 6));
+			Hist lazy{ [&, qid](std::size_t lastN) { return render(qid, &op, lastN); } };
+			bool ok = h.apply(*s, op, true, lazy);
 			++res.transitions;
 			if (!ok) continue;
 			std::string k = h.key(*s);
 			if (seen.insert(k).second) {
 				++res.states;
-				if (res.states > maxStates) { res.fixpoint = false; continue; }
-				Node m; m.hist = std::move(hist2); m.key = std::move(k);
+				if (res.states > maxStates) { res.fixpoint = false; res.capped = true; continue; }
+				QItem m; m.id = int64_t(recs.size());
+				recs.push_back(Rec{ qid, op, depth + 1, std::move(k) });
 				if (h.clone(*s)) m.st = std::move(s);
 				queue.push_back(std::move(m));
 			}
@@ -88,7 +114,7 @@ BfsResult bfs(H& h, Ctx& ctx, std::size_t maxStates, std::size_t maxDepth, const
 	}
 	ctx.state(res.states);
 	ctx.transition(res.transitions);
-	if (!res.fixpoint) ctx.capHit(("bfs cap reached: " + label).c_str());
+	if (res.capped) ctx.capHit(("bfs cap reached: " + label).c_str());
 	return res;
 }
 
